@@ -210,8 +210,8 @@ VEntry(r) ==
         \* find_one is lazy: on an evaluation-time error it may already have its first item,
         \* so agreement is demanded within the list-valued paths and within the find_one paths
         sameOutcome == \A j, k \in 1..N :
-                           (res[j].kind = res[k].kind \/ cv.v # "accept")
-                           => (res[j].out = res[k].out /\ res[j].cls = res[k].cls /\ res[j].locs = res[k].locs)
+                           /\ (res[j].kind = res[k].kind \/ cv.v = "reject") => (res[j].out = res[k].out /\ res[j].cls = res[k].cls)
+                           /\ res[j].kind = res[k].kind => res[j].locs = res[k].locs
     IN  IF ~sameOutcome THEN Rej("C15 entry points disagree on the outcome", <<ToJson([k \in 1..N |-> <<res[k].path, res[k].out, res[k].cls>>])>>)
         ELSE IF cv.v = "reject" THEN
             IF res[1].out = "raise" /\ res[1].jp THEN Acc
